@@ -180,6 +180,231 @@ theorem mu_compactLevels {k : Nat} (hk : 1 ≤ k) (c : Choice) (B : Nat) {ls : L
       have := ih (hoff + 1) h (by omega)
       omega
 
+/-! ### dropping empty levels from the top (repaired shape of `compact()`) -/
+
+theorem dte_cons (x : Level α) (xs : List (Level α)) :
+    dropTrailingEmpty (x :: xs) =
+      match dropTrailingEmpty xs with
+      | [] => if x.isEmpty then [] else [x]
+      | ys => x :: ys := rfl
+
+theorem dte_cons_nil {x : Level α} {xs : List (Level α)} (h : dropTrailingEmpty xs = []) :
+    dropTrailingEmpty (x :: xs) = if x.isEmpty then [] else [x] := by rw [dte_cons, h]
+
+theorem dte_cons_cons {x y : Level α} {xs ys : List (Level α)} (h : dropTrailingEmpty xs = y :: ys) :
+    dropTrailingEmpty (x :: xs) = x :: y :: ys := by rw [dte_cons, h]
+
+theorem sumLen_dte (r : List (Level α)) : sumLen (dropTrailingEmpty r) = sumLen r := by
+  induction r with
+  | nil => rfl
+  | cons x xs ih =>
+    cases hd : dropTrailingEmpty xs with
+    | nil =>
+      rw [hd] at ih
+      rw [dte_cons_nil hd]
+      simp only [sumLen] at ih ⊢
+      split
+      · rename_i hx
+        have : x.length = 0 := by simpa [List.isEmpty_iff] using hx
+        simp only [sumLen]; omega
+      · simp only [sumLen]; omega
+    | cons y ys =>
+      rw [hd] at ih
+      rw [dte_cons_cons hd]
+      simp only [sumLen] at ih ⊢; omega
+
+theorem mu_dte (B h : Nat) (r : List (Level α)) : mu B h (dropTrailingEmpty r) = mu B h r := by
+  induction r generalizing h with
+  | nil => rfl
+  | cons x xs ih =>
+    have ih' := ih (h + 1)
+    cases hd : dropTrailingEmpty xs with
+    | nil =>
+      rw [hd] at ih'
+      rw [dte_cons_nil hd]
+      simp only [mu] at ih' ⊢
+      split
+      · rename_i hx
+        have : x.length = 0 := by simpa [List.isEmpty_iff] using hx
+        simp only [mu, this, Nat.zero_mul]; omega
+      · simp only [mu]; omega
+    | cons y ys =>
+      rw [hd] at ih'
+      rw [dte_cons_cons hd]
+      simp only [mu] at ih' ⊢; omega
+
+theorem length_dte_le (r : List (Level α)) : (dropTrailingEmpty r).length ≤ r.length := by
+  induction r with
+  | nil => simp [dropTrailingEmpty]
+  | cons x xs ih =>
+    cases hd : dropTrailingEmpty xs with
+    | nil => rw [dte_cons_nil hd]; split <;> simp
+    | cons y ys =>
+      rw [hd] at ih
+      rw [dte_cons_cons hd]
+      simp only [List.length_cons] at ih ⊢; omega
+
+theorem lastNonempty_cons (x : Level α) {l : List (Level α)} (h : l ≠ []) : lastNonempty (x :: l) = lastNonempty l := by
+  cases l with
+  | nil => exact absurd rfl h
+  | cons y ys => rfl
+
+theorem lastNonempty_dte (r : List (Level α)) : lastNonempty (dropTrailingEmpty r) = true := by
+  induction r with
+  | nil => rfl
+  | cons x xs ih =>
+    cases hd : dropTrailingEmpty xs with
+    | nil =>
+      rw [dte_cons_nil hd]
+      split
+      · rfl
+      · rename_i hx; simp [lastNonempty, hx]
+    | cons y ys =>
+      rw [hd] at ih
+      rw [dte_cons_cons hd, lastNonempty_cons x (by simp)]
+      exact ih
+
+theorem dte_of_lastNonempty (r : List (Level α)) (h : lastNonempty r = true) : dropTrailingEmpty r = r := by
+  induction r with
+  | nil => rfl
+  | cons x xs ih =>
+    cases xs with
+    | nil =>
+      have hx : x.isEmpty = false := by simpa [lastNonempty] using h
+      simp [dropTrailingEmpty, hx]
+    | cons y ys =>
+      have := ih (by simpa [lastNonempty] using h)
+      rw [dte_cons, this]
+
+theorem sumLen_popTop (c : Cfg) (ls : List (Level α)) : sumLen (popTop c ls) = sumLen ls := by
+  cases ls with
+  | nil => rfl
+  | cons l r =>
+    simp only [popTop]; split
+    · simp only [sumLen, sumLen_dte]
+    · rfl
+
+theorem mu_popTop (c : Cfg) (B : Nat) (ls : List (Level α)) : mu B 0 (popTop c ls) = mu B 0 ls := by
+  cases ls with
+  | nil => rfl
+  | cons l r =>
+    simp only [popTop]; split
+    · simp only [mu, mu_dte]
+    · rfl
+
+theorem popTop_ne (c : Cfg) {ls : List (Level α)} (h : ls ≠ []) : popTop c ls ≠ [] := by
+  cases ls with
+  | nil => exact absurd rfl h
+  | cons l r => simp only [popTop]; split <;> simp
+
+theorem length_popTop_le (c : Cfg) (ls : List (Level α)) : (popTop c ls).length ≤ ls.length := by
+  cases ls with
+  | nil => simp [popTop]
+  | cons l r =>
+    simp only [popTop]; split
+    · have := length_dte_le r; simp only [List.length_cons]; omega
+    · exact Nat.le_refl _
+
+theorem popTop_pinned (c : Cfg) (hc : c.popsEmptyTop = false) (ls : List (Level α)) : popTop c ls = ls := by
+  cases ls <;> simp [popTop, hc]
+
+/-- the repaired shape always leaves a non-empty top level (or a single level) -/
+theorem topNonempty_popTop (c : Cfg) (hc : c.popsEmptyTop = true) (ls : List (Level α)) : topNonempty (popTop c ls) = true := by
+  cases ls with
+  | nil => rfl
+  | cons l r => simp only [popTop, hc, if_true, topNonempty]; exact lastNonempty_dte r
+
+theorem popTop_of_topNonempty (c : Cfg) (ls : List (Level α)) (h : topNonempty ls = true) : popTop c ls = ls := by
+  cases ls with
+  | nil => rfl
+  | cons l r =>
+    simp only [popTop]; split
+    · rw [dte_of_lastNonempty r (by simpa [topNonempty] using h)]
+    · rfl
+
+theorem lastNonempty_getLast (r : List (Level α)) (h : lastNonempty r = true) (top : Level α) (hl : r.getLast? = some top) :
+    top ≠ [] := by
+  induction r with
+  | nil => simp at hl
+  | cons x xs ih =>
+    cases xs with
+    | nil =>
+      simp only [List.getLast?_singleton, Option.some.injEq] at hl
+      subst hl
+      intro h0; rw [h0] at h; simp [lastNonempty] at h
+    | cons y ys =>
+      rw [List.getLast?_cons_cons] at hl
+      exact ih (by simpa [lastNonempty] using h) hl
+
+/-- `topNonempty` spelled out: with more than one level the last one holds a point -/
+theorem top_ne_of_topNonempty (ls : List (Level α)) (h : topNonempty ls = true) (top : Level α) (hL : 1 < ls.length)
+    (hl : ls.getLast? = some top) : top ≠ [] := by
+  cases ls with
+  | nil => simp at hL
+  | cons l r =>
+    cases r with
+    | nil => simp at hL
+    | cons y ys =>
+      rw [List.getLast?_cons_cons] at hl
+      exact lastNonempty_getLast (y :: ys) (by simpa [topNonempty] using h) top hl
+
+theorem compactLevels_ne (k : Nat) (c : Choice) {ls : List (Level α)} (h : ls ≠ []) : compactLevels k c ls ≠ [] := by
+  cases ls with
+  | nil => exact absurd rfl h
+  | cons l r =>
+    simp only [compactLevels]; split
+    · cases r <;> simp
+    · simp
+
+/-- a compaction that keeps at least one point keeps "the last level is non-empty" -/
+theorem lastNonempty_compactLevels {k : Nat} (c : Choice) {ls : List (Level α)} {lvl : Level α}
+    (h : firstFull k ls = some lvl) (hk : pickKept c lvl ≠ []) (hl : lastNonempty ls = true) :
+    lastNonempty (compactLevels k c ls) = true := by
+  induction ls with
+  | nil => simp [firstFull] at h
+  | cons l r ih =>
+    simp only [firstFull] at h
+    simp only [compactLevels]
+    split at h
+    · rename_i hkl
+      have hl' : l = lvl := Option.some.inj h
+      rw [← hl'] at hk
+      simp only [hkl, if_true]
+      cases r with
+      | nil => simpa [lastNonempty, List.isEmpty_iff] using hk
+      | cons nxt rest =>
+        cases rest with
+        | nil => simp [lastNonempty, List.isEmpty_iff, hk]
+        | cons y ys => simpa [lastNonempty] using hl
+    · rename_i hkl
+      simp only [hkl, if_false]
+      have hr : r ≠ [] := by intro h0; rw [h0] at h; simp [firstFull] at h
+      rw [lastNonempty_cons l (compactLevels_ne k c hr)]
+      exact ih h (by rw [lastNonempty_cons l hr] at hl; exact hl)
+
+theorem topNonempty_compactLevels {k : Nat} (c : Choice) {ls : List (Level α)} {lvl : Level α}
+    (h : firstFull k ls = some lvl) (hk : pickKept c lvl ≠ []) (hl : topNonempty ls = true) :
+    topNonempty (compactLevels k c ls) = true := by
+  cases ls with
+  | nil => simp [firstFull] at h
+  | cons l r =>
+    simp only [firstFull] at h
+    simp only [compactLevels]
+    split at h
+    · rename_i hkl
+      have hl' : l = lvl := Option.some.inj h
+      rw [← hl'] at hk
+      simp only [hkl, if_true]
+      cases r with
+      | nil => simpa [topNonempty, lastNonempty, List.isEmpty_iff] using hk
+      | cons nxt rest =>
+        cases rest with
+        | nil => simp [topNonempty, lastNonempty, List.isEmpty_iff, hk]
+        | cons y ys => simpa [topNonempty, lastNonempty] using hl
+    · rename_i hkl
+      simp only [hkl, if_false, topNonempty]
+      exact lastNonempty_compactLevels c h hk (by simpa [topNonempty] using hl)
+
 /-! ### invariant of every reachable state and the loop -/
 
 /-- `num_retained_` is the number of stored points and there is at least one level -/
@@ -187,43 +412,50 @@ structure Inv (s : Sketch α) : Prop where
   cnt : s.numRetained = sumLen s.levels
   ne : s.levels ≠ []
 
-theorem compact_fst_k (P : Picker ρ α) (r : ρ) (s : Sketch α) : (compact P r s).1.k = s.k := by
+theorem compact_fst_k (c : Cfg) (P : Picker ρ α) (r : ρ) (s : Sketch α) : (compact c P r s).1.k = s.k := by
   unfold compact; split <;> rfl
-theorem compact_fst_dim (P : Picker ρ α) (r : ρ) (s : Sketch α) : (compact P r s).1.dim = s.dim := by
+theorem compact_fst_dim (c : Cfg) (P : Picker ρ α) (r : ρ) (s : Sketch α) : (compact c P r s).1.dim = s.dim := by
   unfold compact; split <;> rfl
-theorem compact_fst_n (P : Picker ρ α) (r : ρ) (s : Sketch α) : (compact P r s).1.n = s.n := by
+theorem compact_fst_n (c : Cfg) (P : Picker ρ α) (r : ρ) (s : Sketch α) : (compact c P r s).1.n = s.n := by
   unfold compact; split <;> rfl
 
-theorem compact_inv (P : Picker ρ α) (r : ρ) {s : Sketch α} (hi : Inv s) : Inv (compact P r s).1 := by
+theorem compact_inv (c : Cfg) (P : Picker ρ α) (r : ρ) {s : Sketch α} (hi : Inv s) : Inv (compact c P r s).1 := by
   unfold compact
   split
   · exact hi
   · rename_i lvl hf
     refine ⟨?_, ?_⟩
-    · simp only
+    · simp only [sumLen_popTop]
       have := sumLen_compactLevels (P r lvl).1 hf
       have := hi.cnt
       omega
     · simp only
-      have := compactLevels_length_two (P r lvl).1 hf
-      intro h0; rw [h0] at this; simp at this
+      exact popTop_ne c (compactLevels_ne _ _ hi.ne)
 
-theorem compact_numRetained_le (P : Picker ρ α) (r : ρ) (s : Sketch α) :
-    (compact P r s).1.numRetained ≤ s.numRetained := by
+theorem compact_numRetained_le (c : Cfg) (P : Picker ρ α) (r : ρ) (s : Sketch α) :
+    (compact c P r s).1.numRetained ≤ s.numRetained := by
   unfold compact; split
   · exact Nat.le_refl _
   · simp only; omega
 
-theorem compact_length_ge (P : Picker ρ α) (r : ρ) (s : Sketch α) :
-    s.levels.length ≤ (compact P r s).1.levels.length := by
+/-- pinned shape only: `compact()` never removes a level -/
+theorem compact_length_ge (c : Cfg) (hp : c.popsEmptyTop = false) (P : Picker ρ α) (r : ρ) (s : Sketch α) :
+    s.levels.length ≤ (compact c P r s).1.levels.length := by
   unfold compact; split
   · exact Nat.le_refl _
-  · exact compactLevels_length_ge _ _ _
+  · simp only [popTop_pinned c hp]; exact compactLevels_length_ge _ _ _
 
-/-- with the loop guard true, a compaction really happens: μ drops and there are ≥ 2 levels afterwards -/
-theorem compact_progress (P : Picker ρ α) (r : ρ) {s : Sketch α} (hi : Inv s) (hk : 1 ≤ s.k)
+/-- repaired shape: after `compact()` the top level is non-empty (or there is one level) -/
+theorem compact_topNonempty (c : Cfg) (hp : c.popsEmptyTop = true) (P : Picker ρ α) (r : ρ) (s : Sketch α)
+    (ht : topNonempty s.levels = true) : topNonempty (compact c P r s).1.levels = true := by
+  unfold compact; split
+  · exact ht
+  · exact topNonempty_popTop c hp _
+
+/-- with the loop guard true a compaction really happens and μ drops – for BOTH shapes: removing empty levels does not change μ -/
+theorem compact_progress (c : Cfg) (P : Picker ρ α) (r : ρ) {s : Sketch α} (hi : Inv s) (hk : 1 ≤ s.k)
     (hc : loopCond s = true) (B : Nat) (hB : s.numRetained ≤ B) :
-    mu B 0 (compact P r s).1.levels + 1 ≤ mu B 0 s.levels ∧ 2 ≤ (compact P r s).1.levels.length := by
+    mu B 0 (compact c P r s).1.levels + 1 ≤ mu B 0 s.levels := by
   have hc' : s.k * s.levels.length ≤ s.numRetained := by simpa [loopCond] using hc
   have hne : firstFull s.k s.levels ≠ none := firstFull_ne_none hi.ne (by rw [← hi.cnt]; exact hc')
   have hL : s.levels.length ≤ B := by
@@ -233,32 +465,79 @@ theorem compact_progress (P : Picker ρ α) (r : ρ) {s : Sketch α} (hi : Inv s
   split
   · rename_i hf; exact absurd hf hne
   · rename_i lvl hf
-    exact ⟨mu_compactLevels hk _ B 0 hf (by omega), compactLevels_length_two _ hf⟩
+    simp only [mu_popTop]
+    exact mu_compactLevels hk _ B 0 hf (by omega)
 
-theorem drain_inv (P : Picker ρ α) (f : Nat) (r : ρ) {s : Sketch α} (hi : Inv s) : Inv (drain P f r s).1 := by
+/-- a compaction (guard true) that does not lower `num_retained_` kept every point of the level, so no level disappears and
+there are at least two levels afterwards – in the repaired shape provided the top level was non-empty before -/
+theorem compact_keepall (c : Cfg) (P : Picker ρ α) (r : ρ) {s : Sketch α} (hi : Inv s) (hk : 1 ≤ s.k)
+    (hc : loopCond s = true) (ht : c.popsEmptyTop = true → topNonempty s.levels = true)
+    (hnr : (compact c P r s).1.numRetained = s.numRetained) :
+    s.levels.length ≤ (compact c P r s).1.levels.length ∧ 2 ≤ (compact c P r s).1.levels.length := by
+  have hc' : s.k * s.levels.length ≤ s.numRetained := by simpa [loopCond] using hc
+  have hne : firstFull s.k s.levels ≠ none := firstFull_ne_none hi.ne (by rw [← hi.cnt]; exact hc')
+  have hL1 : 1 ≤ s.levels.length := by
+    have := hi.ne
+    cases hl : s.levels with
+    | nil => exact absurd hl this
+    | cons a b => simp
+  have hnr1 : 1 ≤ s.numRetained := by
+    have : 1 * 1 ≤ s.k * s.levels.length := Nat.mul_le_mul hk hL1
+    omega
+  unfold compact at hnr ⊢
+  split
+  · rename_i hf; exact absurd hf hne
+  · rename_i lvl hf
+    rw [hf] at hnr
+    simp only at hnr ⊢
+    have hle := pickKept_length_le (P r lvl).1 lvl
+    have hkl := firstFull_some_le hf
+    have hkept : pickKept (P r lvl).1 lvl ≠ [] := by
+      intro h0
+      rw [h0] at hnr
+      simp only [List.length_nil] at hnr
+      omega
+    have hsame : popTop c (compactLevels s.k (P r lvl).1 s.levels) = compactLevels s.k (P r lvl).1 s.levels := by
+      cases hp : c.popsEmptyTop with
+      | false => exact popTop_pinned c hp _
+      | true => exact popTop_of_topNonempty c _ (topNonempty_compactLevels _ hf hkept (ht hp))
+    rw [hsame]
+    exact ⟨compactLevels_length_ge _ _ _, compactLevels_length_two _ hf⟩
+
+theorem drain_inv (c : Cfg) (P : Picker ρ α) (f : Nat) (r : ρ) {s : Sketch α} (hi : Inv s) : Inv (drain c P f r s).1 := by
   induction f generalizing r s with
   | zero => exact hi
   | succ f ih =>
     simp only [drain]
     split
-    · exact ih _ (compact_inv P r hi)
+    · exact ih _ (compact_inv c P r hi)
     · exact hi
 
-theorem drain_fst_k (P : Picker ρ α) (f : Nat) (r : ρ) (s : Sketch α) : (drain P f r s).1.k = s.k := by
+theorem drain_topNonempty (c : Cfg) (hp : c.popsEmptyTop = true) (P : Picker ρ α) (f : Nat) (r : ρ) (s : Sketch α)
+    (ht : topNonempty s.levels = true) : topNonempty (drain c P f r s).1.levels = true := by
+  induction f generalizing r s with
+  | zero => exact ht
+  | succ f ih =>
+    simp only [drain]
+    split
+    · exact ih _ _ (compact_topNonempty c hp P r s ht)
+    · exact ht
+
+theorem drain_fst_k (c : Cfg) (P : Picker ρ α) (f : Nat) (r : ρ) (s : Sketch α) : (drain c P f r s).1.k = s.k := by
   induction f generalizing r s with
   | zero => rfl
   | succ f ih =>
     simp only [drain]; split
     · rw [ih, compact_fst_k]
     · rfl
-theorem drain_fst_dim (P : Picker ρ α) (f : Nat) (r : ρ) (s : Sketch α) : (drain P f r s).1.dim = s.dim := by
+theorem drain_fst_dim (c : Cfg) (P : Picker ρ α) (f : Nat) (r : ρ) (s : Sketch α) : (drain c P f r s).1.dim = s.dim := by
   induction f generalizing r s with
   | zero => rfl
   | succ f ih =>
     simp only [drain]; split
     · rw [ih, compact_fst_dim]
     · rfl
-theorem drain_fst_n (P : Picker ρ α) (f : Nat) (r : ρ) (s : Sketch α) : (drain P f r s).1.n = s.n := by
+theorem drain_fst_n (c : Cfg) (P : Picker ρ α) (f : Nat) (r : ρ) (s : Sketch α) : (drain c P f r s).1.n = s.n := by
   induction f generalizing r s with
   | zero => rfl
   | succ f ih =>
@@ -266,43 +545,64 @@ theorem drain_fst_n (P : Picker ρ α) (f : Nat) (r : ρ) (s : Sketch α) : (dra
     · rw [ih, compact_fst_n]
     · rfl
 
-theorem drain_numRetained_le (P : Picker ρ α) (f : Nat) (r : ρ) (s : Sketch α) :
-    (drain P f r s).1.numRetained ≤ s.numRetained := by
+theorem drain_numRetained_le (c : Cfg) (P : Picker ρ α) (f : Nat) (r : ρ) (s : Sketch α) :
+    (drain c P f r s).1.numRetained ≤ s.numRetained := by
   induction f generalizing r s with
   | zero => exact Nat.le_refl _
   | succ f ih =>
     simp only [drain]; split
-    · exact Nat.le_trans (ih _ _) (compact_numRetained_le P r s)
+    · exact Nat.le_trans (ih _ _) (compact_numRetained_le c P r s)
     · exact Nat.le_refl _
 
-theorem drain_length_ge (P : Picker ρ α) (f : Nat) (r : ρ) (s : Sketch α) :
-    s.levels.length ≤ (drain P f r s).1.levels.length := by
+/-- pinned shape only: the loop never removes a level -/
+theorem drain_length_ge (c : Cfg) (hp : c.popsEmptyTop = false) (P : Picker ρ α) (f : Nat) (r : ρ) (s : Sketch α) :
+    s.levels.length ≤ (drain c P f r s).1.levels.length := by
   induction f generalizing r s with
   | zero => exact Nat.le_refl _
   | succ f ih =>
     simp only [drain]; split
-    · exact Nat.le_trans (compact_length_ge P r s) (ih _ _)
+    · exact Nat.le_trans (compact_length_ge c hp P r s) (ih _ _)
+    · exact Nat.le_refl _
+
+/-- both shapes: a loop run that does not lower `num_retained_` removes no level -/
+theorem drain_keepall_length_ge (c : Cfg) (P : Picker ρ α) (f : Nat) (r : ρ) {s : Sketch α} (hi : Inv s) (hk : 1 ≤ s.k)
+    (ht : c.popsEmptyTop = true → topNonempty s.levels = true)
+    (hnr : (drain c P f r s).1.numRetained = s.numRetained) : s.levels.length ≤ (drain c P f r s).1.levels.length := by
+  induction f generalizing r s with
+  | zero => exact Nat.le_refl _
+  | succ f ih =>
+    simp only [drain] at hnr ⊢
+    split
+    · rename_i hc
+      simp only [hc, if_true] at hnr
+      have h1 := drain_numRetained_le c P f (compact c P r s).2 (compact c P r s).1
+      have h2 := compact_numRetained_le c P r s
+      have hnr1 : (compact c P r s).1.numRetained = s.numRetained := by omega
+      have hk1 := compact_keepall c P r hi hk hc ht hnr1
+      have := ih (compact c P r s).2 (compact_inv c P r hi) (by rw [compact_fst_k]; exact hk)
+        (fun hp => compact_topNonempty c hp P r s (ht hp)) (by omega)
+      omega
     · exact Nat.le_refl _
 
 /-- the loop exits by its own guard as soon as the budget exceeds μ_B -/
-theorem drain_exits (P : Picker ρ α) (B : Nat) (f : Nat) (r : ρ) {s : Sketch α} (hi : Inv s) (hk : 1 ≤ s.k)
-    (hB : s.numRetained ≤ B) (hf : mu B 0 s.levels < f) : loopCond (drain P f r s).1 = false := by
+theorem drain_exits (c : Cfg) (P : Picker ρ α) (B : Nat) (f : Nat) (r : ρ) {s : Sketch α} (hi : Inv s) (hk : 1 ≤ s.k)
+    (hB : s.numRetained ≤ B) (hf : mu B 0 s.levels < f) : loopCond (drain c P f r s).1 = false := by
   induction f generalizing r s with
   | zero => omega
   | succ f ih =>
     simp only [drain]
     split
     · rename_i hc
-      have hp := (compact_progress P r hi hk hc B hB).1
-      apply ih _ (compact_inv P r hi)
+      have hp := compact_progress c P r hi hk hc B hB
+      apply ih _ (compact_inv c P r hi)
       · rw [compact_fst_k]; exact hk
-      · exact Nat.le_trans (compact_numRetained_le P r s) hB
+      · exact Nat.le_trans (compact_numRetained_le c P r s) hB
       · omega
     · rename_i hc; simpa using hc
 
 /-- more budget than needed changes nothing -/
-theorem drain_stable (P : Picker ρ α) (f g : Nat) (r : ρ) (s : Sketch α)
-    (hx : loopCond (drain P f r s).1 = false) (hg : f ≤ g) : drain P g r s = drain P f r s := by
+theorem drain_stable (c : Cfg) (P : Picker ρ α) (f g : Nat) (r : ρ) (s : Sketch α)
+    (hx : loopCond (drain c P f r s).1 = false) (hg : f ≤ g) : drain c P g r s = drain c P f r s := by
   induction f generalizing g r s with
   | zero =>
     simp only [drain] at hx ⊢
@@ -325,13 +625,34 @@ theorem fuelOf_enough {s : Sketch α} (hi : Inv s) : mu s.numRetained 0 s.levels
   rw [← hi.cnt] at this
   unfold fuelOf; omega
 
-theorem compactLoop_exits (P : Picker ρ α) (r : ρ) {s : Sketch α} (hi : Inv s) (hk : 1 ≤ s.k) :
-    loopCond (compactLoop P r s).1 = false :=
-  drain_exits P s.numRetained _ r hi hk (Nat.le_refl _) (fuelOf_enough hi)
+theorem compactLoop_exits (c : Cfg) (P : Picker ρ α) (r : ρ) {s : Sketch α} (hi : Inv s) (hk : 1 ≤ s.k) :
+    loopCond (compactLoop c P r s).1 = false :=
+  drain_exits c P s.numRetained _ r hi hk (Nat.le_refl _) (fuelOf_enough hi)
 
-/-- if the loop leaves a single level it did nothing at all -/
-theorem drain_one_level (P : Picker ρ α) (f : Nat) (r : ρ) {s : Sketch α} (hi : Inv s) (hk : 1 ≤ s.k)
-    (h1 : (drain P f r s).1.levels.length = 1) : drain P f r s = (s, r) := by
+/-- both shapes: if the loop leaves a single level and did not lower `num_retained_` it did nothing at all -/
+theorem drain_noop (c : Cfg) (P : Picker ρ α) (f : Nat) (r : ρ) {s : Sketch α} (hi : Inv s) (hk : 1 ≤ s.k)
+    (ht : c.popsEmptyTop = true → topNonempty s.levels = true)
+    (hnr : (drain c P f r s).1.numRetained = s.numRetained)
+    (h1 : (drain c P f r s).1.levels.length = 1) : drain c P f r s = (s, r) := by
+  cases f with
+  | zero => rfl
+  | succ f =>
+    simp only [drain] at h1 hnr ⊢
+    split
+    · rename_i hc
+      simp only [hc, if_true] at h1 hnr
+      have a1 := drain_numRetained_le c P f (compact c P r s).2 (compact c P r s).1
+      have a2 := compact_numRetained_le c P r s
+      have hnr1 : (compact c P r s).1.numRetained = s.numRetained := by omega
+      have h2 := (compact_keepall c P r hi hk hc ht hnr1).2
+      have h3 := drain_keepall_length_ge c P f (compact c P r s).2 (compact_inv c P r hi) (by rw [compact_fst_k]; exact hk)
+        (fun hp => compact_topNonempty c hp P r s (ht hp)) (by omega)
+      omega
+    · rfl
+
+/-- pinned shape: if the loop leaves a single level it did nothing at all (a compaction always leaves ≥ 2 levels) -/
+theorem drain_one_level (c : Cfg) (hp : c.popsEmptyTop = false) (P : Picker ρ α) (f : Nat) (r : ρ) {s : Sketch α} (hi : Inv s)
+    (hk : 1 ≤ s.k) (h1 : (drain c P f r s).1.levels.length = 1) : drain c P f r s = (s, r) := by
   cases f with
   | zero => rfl
   | succ f =>
@@ -339,8 +660,13 @@ theorem drain_one_level (P : Picker ρ α) (f : Nat) (r : ρ) {s : Sketch α} (h
     split
     · rename_i hc
       simp only [hc, if_true] at h1
-      have h2 := (compact_progress P r hi hk hc s.numRetained (Nat.le_refl _)).2
-      have h3 := drain_length_ge P f (compact P r s).2 (compact P r s).1
+      have hc' : s.k * s.levels.length ≤ s.numRetained := by simpa [loopCond] using hc
+      have hne : firstFull s.k s.levels ≠ none := firstFull_ne_none hi.ne (by rw [← hi.cnt]; exact hc')
+      have h2 : 2 ≤ (compact c P r s).1.levels.length := by
+        unfold compact; split
+        · rename_i hf; exact absurd hf hne
+        · rename_i lvl hf; simp only [popTop_pinned c hp]; exact compactLevels_length_two _ hf
+      have h3 := drain_length_ge c hp P f (compact c P r s).2 (compact c P r s).1
       omega
     · rfl
 
